@@ -133,6 +133,38 @@ Proof.
 Qed.
 Print Assumptions C07_ensemble_count_order.
 
+(* ------------------------------------------------------------------ the written object need not own its atoms.
+   `sub_view nm m sel` = the Substructure of m on the atom positions sel (any subset, any order; m.heavy is one)
+   as the writer sees it: the picked atoms, the parent's bonds between picked atoms, ends numbered by position
+   in the view.  `conformer_mol e c` = one conformer taken out of its ensemble.  Compared with molli on every run
+   (cases CView / CConf), together with structures whose atoms were adopted by another structure afterwards. *)
+Theorem C07_view_roundtrip : forall wq nm m sel,
+  wf_real_mol m = true -> wf_name nm = true -> wf_sel (lenN (m_atoms m)) sel = true ->
+  read RV wq (write RV wq (sub_view RV nm m sel)) = Some (norm RV wq (sub_view RV nm m sel)).
+Proof. exact (real_view_roundtrip C07_table_acc C07_table_bonds). Qed.
+Print Assumptions C07_view_roundtrip.
+
+(* the atoms read back are the picked atoms in the order picked; every bond read back joins the (positions in the
+   view of the) two atoms the parent's bond joins; no bond of the parent between two picked atoms is lost *)
+Theorem C07_view_preserved : forall wq nm m sel m',
+  wf_real_mol m = true -> wf_name nm = true -> wf_sel (lenN (m_atoms m)) sel = true ->
+  read RV wq (write RV wq (sub_view RV nm m sel)) = Some m' ->
+  m_name m' = nm
+  /\ length (m_atoms m') = length sel
+  /\ (forall k i, nth_error sel k = Some i -> nth_error (m_atoms m') k = option_map (norm_atom RV wq) (nthN (m_atoms m) i))
+  /\ m_bonds m' = map (norm_bond RV) (view_bonds RV sel (m_bonds m))
+  /\ (forall b', In b' (m_bonds m') -> exists b, In b (m_bonds m)
+        /\ nthN sel (b_a1 b') = Some (b_a1 b) /\ nthN sel (b_a2 b') = Some (b_a2 b))
+  /\ (forall b, In b (m_bonds m) -> In (b_a1 b) sel -> In (b_a2 b) sel -> exists b', In b' (m_bonds m')
+        /\ nthN sel (b_a1 b') = Some (b_a1 b) /\ nthN sel (b_a2 b') = Some (b_a2 b)).
+Proof. exact (real_view_preserved C07_table_acc C07_table_bonds). Qed.
+Print Assumptions C07_view_preserved.
+
+Theorem C07_conformer_roundtrip : forall e k c, wf_real_ens e = true -> nthN (e_confs e) k = Some c ->
+  read RV true (write RV true (conformer_mol RV e c)) = Some (norm RV true (conformer_mol RV e c)).
+Proof. exact (real_conformer_roundtrip C07_table_acc C07_table_bonds). Qed.
+Print Assumptions C07_conformer_roundtrip.
+
 (* recorded finding: without conformers nothing is written and nothing can be read *)
 Lemma C07_ensemble_refuted_no_conformer :
   match read_ens RV (write_ens RV (rens (u8 "noconf") [((6, 1, 0), u8 "C1")] [] [])) with None => true | Some _ => false end = true.
@@ -164,4 +196,18 @@ Example C07_hypotheses_satisfiable :
   /\ mol_obs_eqb (norm RV true demo_mol) demo_mol = false
   /\ wf_real_ens demo_ens = true
   /\ option_map (fun e : ens RV => length (e_confs e)) (read_ens RV (write_ens RV demo_ens)) = Some 2%nat.
+Proof. vm_compute. repeat split; reflexivity. Qed.
+
+(* a view that is not a prefix of its parent: atoms 2 and 0 of demo_mol, in that order.  The parent's bond 2-0 is
+   written 1-2 (positions in the view).  Numbering the ends by position in the PARENT instead (what an atom's
+   back-reference says) gives a text molli's own reader rejects: atom 3 of 2. *)
+Definition demo_view : mol RV := sub_view RV (u8 "unknown") demo_mol [2; 0].
+Example C07_view_hypotheses_satisfiable :
+  wf_sel (lenN (m_atoms demo_mol)) [2; 0] = true
+  /\ list_eqb bond_obs_eqb (m_bonds demo_view) [rbond 0 1 4] = true
+  /\ (match read RV false (write RV false demo_view) with Some r => mol_obs_eqb r (norm RV false demo_view) | None => false end) = true
+  /\ read RV false (write RV false (rmol (u8 "unknown") (m_atoms demo_view) [rbond 2 0 4])) = None
+  /\ option_map (fun r : mol RV => length (m_bonds r)) (read RV true (write RV true (conformer_mol RV demo_ens
+       [mk_cpos (mk_fx false 11) (mk_fx false 12) (mk_fx false 13) (mk_fx false 14); mk_cpos (mk_fx true 15) (mk_fx false 16) (mk_fx false 17) (mk_fx true 18)])))
+     = Some 1%nat.
 Proof. vm_compute. repeat split; reflexivity. Qed.
